@@ -40,6 +40,7 @@ fn logical(bytes: &[u8], pw: bool) -> Result<Logical, String> {
 
 /// Run a writer scenario under a plan. Returns per-call results (new_append first if any) and the sink.
 fn run_w(s: &WScn, src: &[Vec<u8>], p: PlanRef) -> (Vec<Res>, Vec<u8>) {
+    let p_shared = p.clone();
     let sink = SharedBuf::new(s.base.clone().unwrap_or_default());
     let mut out = vec![];
     let mut w = match &s.base {
@@ -62,8 +63,19 @@ fn run_w(s: &WScn, src: &[Vec<u8>], p: PlanRef) -> (Vec<Res>, Vec<u8>) {
             }
         }
     };
+    // scenarios labelled "src-faults:" read the sources of their raw copies through the same instrumented plan as the sink,
+    // 7 bytes per read call: the source's I/O calls are numbered, and fail, like the sink's
+    let shared = s.label.starts_with("src-faults:");
+    if shared {
+        SRC_PLAN.with(|sp| *sp.borrow_mut() = Some(p_shared.clone()));
+        SRC_CHUNK.with(|c| c.set(7));
+    }
     for c in &s.calls {
         out.push(w.call(c, src));
+    }
+    if shared {
+        SRC_PLAN.with(|sp| *sp.borrow_mut() = None);
+        SRC_CHUNK.with(|c| c.set(0));
     }
     // explicit, separately caught drop
     out.push(w.drop_now());
@@ -110,6 +122,14 @@ pub fn writer_scenarios(seed: u64, max_len: usize) -> Vec<WScn> {
         }
         calls.push(Call::Finish);
         v.push(WScn { label: labels.join("+"), base: None, calls, pw });
+    }
+    // raw copies whose SOURCE stream takes part in the fault enumeration (every read / seek of the source archive is an I/O call)
+    for c in comps.iter().filter(|c| c.0.starts_with("rawcopy")) {
+        let mut calls = al[0].1.clone();
+        calls.extend(c.1.iter().cloned());
+        calls.extend(al[1].1.iter().cloned());
+        calls.push(Call::Finish);
+        v.push(WScn { label: format!("src-faults:{}+{}+{}", al[0].0, c.0, al[1].0), base: None, calls, pw: false });
     }
     // append: 4 bases x (nothing | each composite)
     let bases: Vec<(&str, Vec<u8>)> = vec![
